@@ -22,6 +22,14 @@ func ListenTCP(l config.Listen, cfg *tls.Config) (net.Listener, error) {
 		return nil, fmt.Errorf("listen: Fail to listen. %s", err)
 	}
 
+	// with port 0 the kernel picks the port. Listeners are registered
+	// under their address, so use the bound one to keep them apart.
+	if addr.Port == 0 {
+		if a, ok := ln.Addr().(*net.TCPAddr); ok {
+			addr = a
+		}
+	}
+
 	// enable TCPKeepAlive support
 	ln = tcpKeepAliveListener{ln.(*net.TCPListener)}
 
